@@ -178,10 +178,13 @@ func (eng *Engine) scenarios(t checkTarget) []scenarioT {
 				c := &specCtx{pkg: t.fn.Pkg.Pkg}
 				x, err := parseTypeExpr(tn)
 				if err != nil {
+					// never skip silently: a function without scenarios would generate no obligations
+					eng.scenarioErrList = append(eng.scenarioErrList, fmt.Sprintf("%s:%d: scenario type %q does not parse", t.fc.File, t.fc.Line, tn))
 					continue
 				}
 				ty := c.lookupType(x)
 				if ty == nil {
+					eng.scenarioErrList = append(eng.scenarioErrList, fmt.Sprintf("%s:%d: scenario type %q is unknown", t.fc.File, t.fc.Line, tn))
 					continue
 				}
 				out = append(out, scenarioT{types: map[string]types.Type{p: ty}, name: types.TypeString(ty, func(p *types.Package) string { return "" })})
@@ -247,12 +250,13 @@ func cmdCheck(args []string) int {
 		if *only != "" && !strings.Contains(t.fn.String(), *only) {
 			continue
 		}
-		for _, sc := range eng.scenarios(t) {
+		scs := eng.scenarios(t)
+		for _, sc := range scs {
 			results = append(results, eng.verifyFunc(t.fn, t.fc, t.props, sc))
 		}
 	}
 	var obls, covers []*Obligation
-	engineErrs := []string{}
+	engineErrs := append([]string{}, eng.scenarioErrList...)
 	for _, r := range results {
 		if r.Err != nil {
 			engineErrs = append(engineErrs, r.Err.Error())
